@@ -52,6 +52,7 @@ func Run(r *core.Run) {
 	runVectors(r)
 	runDerivation(r, thorough)
 	runHistories(r, thorough)
+	runConcurrent(r)
 	runSigning(r, thorough)
 
 	r.Assume("I_L >= n, I_L = 0 and 'child is the point at infinity' cannot be reached by enumeration (probability <= 2^-127 per step); 'invalid intermediate keys are refused' is covered only by an off-curve parent key")
